@@ -316,7 +316,8 @@ class CG(LinearSolver):
             b = rhs.reshape((rhs.size, 1))
         else:
             b = rhs
-        x = np.zeros_like(rhs, dtype=np.result_type(rhs, A)) if x0 is None else x0.copy()
+        dtype = np.result_type(rhs, A)
+        x = np.zeros_like(rhs, dtype=dtype) if x0 is None else x0.astype(np.result_type(dtype, x0))  # Makes a copy
         if x.ndim == 1:
             x = x.reshape((x.size, 1))
 
